@@ -63,18 +63,42 @@ theorem layers_canon {LL : Nat} {s : Rat} (hs : s ≠ 0) : ∀ (ls : List GLayer
     simp only [List.map_cons, layerTops, List.mapM_cons]
     rw [layerLine_canon hs (h l (by simp)) t, ih _ (fun x hx => h x (List.mem_cons_of_mem _ hx))]
 
-theorem canonLayers_mapM {LL : Nat} {s : Rat} (hs : s ≠ 0) (ls : List GLayer) (h : ∀ l ∈ ls, LayerOK LL s l) :
+/-- when every centre is kept, the re-read layers are the plainly rounded ones -/
+theorem canonLayersAux_kept (s : Rat) : ∀ (ls : List GLayer) (above : Option GLayer),
+    layerCentresKeptAux s above ls = true → canonLayersAux s above ls = ls.map (canonLayer s) := by
+  intro ls
+  induction ls with
+  | nil => intro _ _; rfl
+  | cons l r ih =>
+    intro above h
+    simp only [layerCentresKeptAux, Bool.and_eq_true, Bool.or_eq_true, beq_iff_eq] at h
+    have e : canonLayerAt s above l = canonLayer s l := by
+      unfold canonLayerAt canonLayer
+      by_cases ht : (roundF 2 (l.centre.div s)).truthy = true
+      · simp only [ht, if_true]
+      · simp only [ht, Bool.false_eq_true, if_false]
+        rcases h.1 with h1 | h1
+        · exact absurd h1 ht
+        · simp only [canonLayer] at h1
+          rw [h1]; rfl
+    simp only [canonLayersAux, List.map_cons, e]
+    rw [ih _ h.2]
+
+theorem canonLayers_mapM {LL : Nat} {s : Rat} (hs : s ≠ 0) (ls : List GLayer) (h : ∀ l ∈ ls, LayerOK LL s l)
+    (hk : layerCentresKeptAux s none ls = true) :
     (canonLayers s ls).mapM (layerLine SP s) = ls.mapM (layerLine SP s) := by
+  unfold canonLayers
+  rw [canonLayersAux_kept s ls none hk]
   cases ls with
   | nil => rfl
-  | cons l r =>
-    have : canonLayers s (l :: r) = layerTops (canonLayer s l).bottom ((l :: r).map (canonLayer s)) := rfl
-    rw [this]
-    exact layers_canon hs (l :: r) _ h
+  | cons l r => exact layers_canon hs (l :: r) _ h
 
-theorem write_canon {g : Geo} {L LL : Nat} {s : Rat} (w : WFP g L LL s) (hst : SizesStable g = true) :
+theorem write_canon {g : Geo} {L LL : Nat} {s : Rat} (w : WFP g L LL s) (hk : LayerCentresKept g = true)
+    (hst : SizesStable g = true) :
     write (canonGeo g) = write g := by
   have hs : s ≠ 0 := scale_ne_zero w.sc
+  have hk' : layerCentresKeptAux s none g.layers = true := by
+    unfold LayerCentresKept at hk; rw [w.sOf] at hk; exact hk
   unfold SizesStable at hst
   simp only [Bool.and_eq_true, beq_iff_eq] at hst
   unfold write writeLines
@@ -97,7 +121,7 @@ theorem write_canon {g : Geo} {L LL : Nat} {s : Rat} (w : WFP g L LL s) (hst : S
   have hlayers : writeLayers SP s (canonGeo g).layers = writeLayers SP s g.layers := by
     have : (canonGeo g).layers = canonLayers s g.layers := by unfold canonGeo; rw [w.sOf]
     unfold writeLayers
-    rw [this, canonLayers_mapM hs g.layers w.layers]
+    rw [this, canonLayers_mapM hs g.layers w.layers hk']
   have hall : ((canonGeo g).columns.all fun c => c.defaultSurface) = (g.columns.all fun c => c.defaultSurface) := by
     unfold canonGeo
     simp only [List.all_map]
@@ -133,5 +157,42 @@ theorem write_canon {g : Geo} {L LL : Nat} {s : Rat} (w : WFP g L LL s) (hst : S
       exact mapM_congr' x.pos (fun p hp => wellLine_canon hs x.name ((w.wells x hx).pos p hp)))
     rw [hm]
   rw [hnodes, hcols, hconns, hlayers, hall, hsurf, hwl, hwells]
+
+/-! ### what the re-read layers are -/
+
+theorem layerTops_map {α : Type} (f : GLayer → α) (hf : ∀ (l : GLayer) (t' : Flt), f { l with top := t' } = f l) :
+    ∀ (ls : List GLayer) (t : Flt), (layerTops t ls).map f = ls.map f := by
+  intro ls
+  induction ls with
+  | nil => intro _; rfl
+  | cons l r ih => intro t; simp only [layerTops, List.map_cons, hf, ih]
+
+theorem canonLayersAux_name_bottom (s : Rat) : ∀ (ls : List GLayer) (above : Option GLayer),
+    (canonLayersAux s above ls).map (fun l => (l.name, l.bottom)) = ls.map (fun l => (l.name, canonC 2 s l.bottom)) := by
+  intro ls
+  induction ls with
+  | nil => intro _; rfl
+  | cons l r ih => intro above; simp only [canonLayersAux, List.map_cons, ih]; rfl
+
+theorem canonLayers_name_bottom (s : Rat) (ls : List GLayer) :
+    (canonLayers s ls).map (fun l => (l.name, l.bottom)) = ls.map (fun l => (l.name, canonC 2 s l.bottom)) := by
+  unfold canonLayers
+  cases hc : canonLayersAux s none ls with
+  | nil => rw [← canonLayersAux_name_bottom s ls none, hc]
+  | cons l0 r =>
+    simp only
+    rw [layerTops_map _ (fun _ _ => rfl), ← hc, canonLayersAux_name_bottom]
+
+theorem canonLayers_centre_kept (s : Rat) (ls : List GLayer) (hk : layerCentresKeptAux s none ls = true) :
+    (canonLayers s ls).map (·.centre) = ls.map (fun l => canonC 2 s l.centre) := by
+  unfold canonLayers
+  rw [canonLayersAux_kept s ls none hk]
+  cases ls with
+  | nil => rfl
+  | cons l r =>
+    simp only [List.map_cons]
+    rw [layerTops_map _ (fun _ _ => rfl)]
+    simp only [List.map_cons, List.map_map]
+    rfl
 
 end Proofs.GeoFile
